@@ -107,6 +107,7 @@ def dict_unit(res):
     V = {nm: [z3.Real(f"{nm}{i}") for i in range(n)] for nm in ("lat", "tp", "lwl", "cp", "lcdprev")}
     PP = [[z3.Real(f"pp{i}_{j}") for j in range(len(ports))] for i in range(n)]
     TS = [z3.Real(f"total_{j}") for j in range(len(ports))]
+    CPN = [z3.Real(f"cp_contribution_of_this_analysis{i}") for i in range(n)]
     aw, lw, cw = z3.Bools("arch_warning length_warning lcd_warning")
     L1 = z3.Real("lcd_latency")
     for totals_empty in (False, True):
@@ -122,7 +123,14 @@ def dict_unit(res):
                         kernel.append(f)
                     dep = {"4": {"root": kernel[1], "dependencies": [(kernel[1], SNum(L1, False))], "latency": SNum(L1, False)}}
                     ex.abstract["get_loopcarried_dependencies"] = lambda ex_, so, a, kw: dep
-                    ex.abstract["get_critical_path"] = lambda ex_, so, a, kw: [kernel[i] for i in cpset]
+                    def get_critical_path(ex_, so, a, kw):
+                        # contract of KernelDG.get_critical_path (C04): EVERY line's latency_cp is (re)written by the call -
+                        # its contribution on the path, 0 off the path; what the lines carried before is stale
+                        for i in range(n):
+                            kernel[i].fields["latency_cp"] = SNum(CPN[i], False) if i in cpset else 0
+                        return [kernel[i] for i in cpset]
+
+                    ex.abstract["get_critical_path"] = get_critical_path
                     ex.abstract["get_throughput_sum"] = lambda ex_, so, a, kw: [] if totals_empty else [SNum(x, False) for x in TS]
                     ex.abstract["get_ports"] = lambda ex_, so, a, kw: ports
                     ex.abstract["_header_report_dict"] = lambda ex_, so, a, kw: {"hdr": 1}
@@ -143,7 +151,7 @@ def dict_unit(res):
                         return False
                     for i, r in enumerate(rows):
                         g += [real_term(r["Latency"]) == V["lat"][i], real_term(r["Throughput"]) == V["tp"][i], real_term(r["LatencyWithoutLoad"]) == V["lwl"][i],
-                              real_term(r["LatencyCP"]) == V["cp"][i], real_term(r["LatencyLCD"]) == (L1 if i == 1 else 0)]
+                              real_term(r["LatencyCP"]) == (CPN[i] if i in cpset else 0), real_term(r["LatencyLCD"]) == (L1 if i == 1 else 0)]
                         g.append(z3.BoolVal(list(r["PortPressure"].keys()) == ports and r["LineNumber"] == i + 3 and r["Instruction"] == "op" and r["Flags"] == k[i].fields["_flags"]
                                             and r["Flags"] is not k[i].fields["_flags"]))
                         g += [real_term(r["PortPressure"][ports[j]]) == PP[i][j] for j in range(len(ports))]
@@ -153,7 +161,7 @@ def dict_unit(res):
                     tot = [z3.RealVal(0)] * len(ports) if totals_empty else TS  # nothing to sum up: a line of 0s
                     g.append(z3.BoolVal(list(sm["PortPressure"].keys()) == ports))
                     g += [real_term(sm["PortPressure"][ports[j]]) == tot[j] for j in range(len(ports))]
-                    g.append(real_term(sm["CriticalPath"]) == sum([V["cp"][i] for i in cpset], z3.RealVal(0)))
+                    g.append(real_term(sm["CriticalPath"]) == sum([CPN[i] for i in cpset], z3.RealVal(0)))
                     g.append(real_term(sm["LCD"]) == L1)
                     w = v["Warnings"]
                     g.append(z3.BoolVal(("UnknownInstrWarning" in w) == unknown and set(w) <= {"ArchWarning", "LengthWarning", "LCDWarning", "UnknownInstrWarning"}))
